@@ -161,10 +161,12 @@ func (p *parser) parseBinaryExpr(left Node) Node {
 	if binaryExp.Right == nil {
 		return nil // previous error
 	}
-	if expType == EMPTY_ARRAY {
-		binaryExp.T = binaryExp.Right.Type() // array concatenation e.g. [] + [1 2]
+	if !p.validateBinaryType(binaryExp) {
+		return nil // previous error
 	}
-	p.validateBinaryType(binaryExp)
+	if expType.Name == ARRAY && binaryExp.Op == OP_PLUS {
+		binaryExp.T = unify(expType, binaryExp.Right.Type()) // array concatenation e.g. [] + [1 2]
+	}
 	if p.isWSS() {
 		p.formatting.recordWSS(binaryExp)
 	}
@@ -325,7 +327,7 @@ func (p *parser) parseTypeAssertion(left Node) Node {
 	if t == nil {
 		return nil // previous error
 	}
-	return &TypeAssertion{T: t, token: tok, Left: left}
+	return &TypeAssertion{T: fixedType(t), token: tok, Left: left}
 }
 
 func isBinaryOp(tt lexer.TokenType) bool {
@@ -353,12 +355,12 @@ func (p *parser) validateUnaryType(unaryExp *UnaryExpression) {
 	}
 }
 
-func (p *parser) validateBinaryType(binaryExp *BinaryExpression) {
+func (p *parser) validateBinaryType(binaryExp *BinaryExpression) bool {
 	tok := binaryExp.Token()
 	op := binaryExp.Op
 	if op == OP_ILLEGAL || op == OP_BANG {
 		p.appendErrorForToken("invalid binary operator", tok)
-		return
+		return false
 	}
 
 	leftType := binaryExp.Left.Type()
@@ -366,9 +368,10 @@ func (p *parser) validateBinaryType(binaryExp *BinaryExpression) {
 	if !(leftType.matches(rightType) || (leftType.Name == ARRAY && op == OP_ASTERISK)) {
 		msg := fmt.Sprintf("mismatched type for %s: %s, %s", op, leftType, rightType)
 		p.appendErrorForToken(msg, tok)
-		return
+		return false
 	}
 
+	errCount := len(p.errors)
 	switch op {
 	case OP_PLUS:
 		if leftType != NUM_TYPE && leftType != STRING_TYPE && leftType.Name != ARRAY {
@@ -398,6 +401,7 @@ func (p *parser) validateBinaryType(binaryExp *BinaryExpression) {
 			p.appendErrorForToken(msg, tok)
 		}
 	}
+	return len(p.errors) == errCount
 }
 
 func (p *parser) parseLiteral() Node {
